@@ -7,8 +7,9 @@ class Prop:
     ID = 'C16'
     GEN = ['enums', 'node', 'proc']
     MODEL_TARGETS = ['model/Node.vo', 'model/NodeSpec.vo', 'model/ProcStatus.vo']
-    TARGETS = ['props/C16.vo', 'props/C11.vo', 'props/C12.vo']
+    TARGETS = ['props/C16.vo', 'props/C16term.vo', 'props/C11.vo', 'props/C12.vo']
     PROPS_FILE = 'props/C16.v'
+    PROPS_FILES = ['props/C16.v', 'props/C16term.v']
     SUITES = [NodeSuite(evals={'mismatches': 'mismatches', 'spec_violations': 'spec_violations_c16k', 'known:set-state-livelock': 'known_c16_livelock'}),
               ProcessSuite()]
     RULE = base.Prop.RULE
